@@ -416,6 +416,12 @@ def _is_reversed_expr(e) -> bool:
     return _strip_rev(e) is not e
 
 
+def _nrm(x, limit=160):
+    # locals of an inlined worker carry a per-expansion suffix (sa/inline.py); two expansions of the same worker read the same
+    import re as _re
+    return _re.sub(r'__i\d+\b', '', norm(x, limit))
+
+
 def _expr_items(e):
     """Items pushed by `stack = <e>` : concatenations, list displays, conditional expressions, reversed slices."""
     if isinstance(e, ast.BinOp) and isinstance(e.op, ast.Add):
@@ -427,10 +433,10 @@ def _expr_items(e):
     if isinstance(inner, ast.NamedExpr):
         inner = inner.value
     if isinstance(inner, ast.IfExp) and not rev:
-        return [('if', norm(inner.test), _expr_items(inner.body), _expr_items(inner.orelse))]
+        return [('if', _nrm(inner.test), _expr_items(inner.body), _expr_items(inner.orelse))]
     if isinstance(inner, ast.List) and not rev:
-        return [('push', 'append', norm(x), False) for x in inner.elts]
-    return [('push', 'extend', norm(inner), rev)]
+        return [('push', 'append', _nrm(x), False) for x in inner.elts]
+    return [('push', 'extend', _nrm(inner), rev)]
 
 
 def push_program(stmts, stackname='stack'):
@@ -442,7 +448,7 @@ def push_program(stmts, stackname='stack'):
                 isinstance(st.value.func.value, ast.Name) and st.value.func.value.id == stackname and \
                 st.value.func.attr in ('append', 'extend') and st.value.args:
             a = st.value.args[0]
-            out.append(('push', st.value.func.attr, norm(_strip_rev(a)), _is_reversed_expr(a)))
+            out.append(('push', st.value.func.attr, _nrm(_strip_rev(a)), _is_reversed_expr(a)))
         elif isinstance(st, ast.Assign) and isinstance(st.targets[0], ast.Name) and st.targets[0].id == stackname:
             v = st.value
             if isinstance(v, ast.List) and not v.elts:
@@ -451,12 +457,14 @@ def push_program(stmts, stackname='stack'):
         elif isinstance(st, ast.For):
             items = push_program(st.body, stackname)
             if items:
-                out.append(('loop', norm(_strip_rev(st.iter)), _is_reversed_expr(st.iter), items))
+                out.append(('loop', _nrm(_strip_rev(st.iter)), _is_reversed_expr(st.iter), items))
+        elif isinstance(st, ast.If) and isinstance(st.test, ast.Constant):
+            out.extend(push_program(st.body if st.test.value else st.orelse, stackname))      # inlined worker called with a literal mode
         elif isinstance(st, ast.If):
             items = push_program(st.body, stackname)
             oitems = push_program(st.orelse, stackname)
             if items or oitems:
-                out.append(('if', norm(st.test), items, oitems))
+                out.append(('if', _nrm(st.test), items, oitems))
     return out
 
 
@@ -478,14 +486,36 @@ def find_back_ifs(fn):
     for n in walk_no_nested(fn):
         if isinstance(n, ast.If) and n.orelse:
             t = n.test
-            if _is_back(t) is True or (isinstance(t, ast.BoolOp) and isinstance(t.op, ast.Or) and any(_is_back(v) is True for v in t.values)):
+            # (`if not back:` is the same decision with the arms exchanged; mirror-image and path-set comparisons are symmetric)
+            if _is_back(t) is not None or (isinstance(t, ast.BoolOp) and isinstance(t.op, ast.Or) and any(_is_back(v) is True for v in t.values)):
                 res.append(n)
     return res
 
 
-def check_mirror(ctx, rid, fi):
-    ifs = find_back_ifs(fi.node)
+def check_mirror(ctx, rid, fi, depth=0):
+    from ..inline import inlined
+    fnode, _ = inlined(ctx.repo, fi)             # a scope helper split into wrapper + worker is read as one function
+    ifs = find_back_ifs(fnode)
     if not ifs:
+        # the direction arms may live in the builders of a dispatch table {class: builder}: `TABLE.get(<root>.__class__)`
+        rows = []
+        for x in ast.walk(fnode):
+            if isinstance(x, ast.Call) and isinstance(x.func, ast.Attribute) and x.func.attr == 'get' and isinstance(x.func.value, ast.Name) and x.args and \
+                    isinstance(x.args[0], ast.Attribute) and x.args[0].attr == '__class__':
+                try:
+                    tv = ctx.ev.get(fi.module, x.func.value.id)
+                except AnalysisError:
+                    continue
+                if isinstance(tv, dict):
+                    seen = set()
+                    for v in tv.values():
+                        if isinstance(v, FuncTok) and v.key not in seen:
+                            seen.add(v.key)
+                            rows += ctx.repo.find_funcs(v.module, v.qualname)
+        if rows and depth < 1:
+            for g in rows:
+                check_mirror(ctx, rid, g, depth + 1)
+            return
         raise AnalysisError(f'{fi.key}: no `if back:` arm found (scope helper changed shape)')
     for n in ifs:
         a = push_program(n.body)
